@@ -80,7 +80,10 @@ class MystReferenceResolver(ReferencesResolver):
             contnode = cast(nodes.TextElement, node[0].deepcopy())
             target = node["reftarget"]
             refdoc = node.get("refdoc", self.env.docname)
-            search_domains: None | list[str] = self.env.config.myst_ref_domains
+            # the value set in the front matter of the referencing document, else global
+            search_domains: None | list[str] = self.env.metadata.get(
+                refdoc, {}
+            ).get("myst_ref_domains", self.env.config.myst_ref_domains)
 
             # try to resolve the reference within the local project,
             # this asks all domains to resolve the reference,
